@@ -5,7 +5,7 @@ import XmppModel.Model.Encoder
 
     tx <entry> <ns> <from|-> <startTok|-> <toks>   -> <status> <canonical wire tokens>
     fault <mode> <ns> <from|-> <k> <toks> <next>   -> <first ok|fail> <next ok|broken> <canonical wire>
-                                                       (mode reader|tw|badtok: the first call stops after
+                                                       (mode reader|tw|badtok|badend: the first call stops after
                                                        k tokens of its element; then Send(next))
     flush <entry> <form>                           -> 1 | 0   (is the element on the connection
                                                        when the call returns)
@@ -84,6 +84,7 @@ def handle (args : List String) : Option String :=
         else some (ts.take k, false, false)
       | "tw" => some (ts.take k, true, false)
       | "badtok" => some (ts.take k, false, true)
+      | "badend" => some (ts.take k, false, true)
       | _ => none
     let r := faultThenNext true cfg fresh handed handed.length nextToks refused
     let s1 := if ok1 then "ok" else "fail"
